@@ -82,3 +82,94 @@ unit("C39", "Option setting is all-or-nothing and parsers match their grammar",
      design_ref="2/C39", miri=True,
      floors={"quick": {"single_settings": 250000, "bulk_strings": 50000, "bulk_all_succeed": 10000, "bulk_with_failure": 25000,
                        "set_expected_accept": 40000, "set_expected_reject": 100000, "from_str_invalid": 50000}})
+
+unit("C19", "Block pool never loses or duplicates a block",
+     rule="rounds of the real usage protocol on a BlockPool of unique-id blocks: W worker threads (own ordinals) push concurrently while A allocator threads pop; "
+          "flush_all/iterate only at quiescent barriers; local queue capacity 256 exceeded up to 4x per round; (W,A) in {(4,4),(6,2),(2,2),(1,1),(3,5),(7,1)}; "
+          "1500 rounds per config quick / 18000 thorough; non-trivial round = pops overlapped pushes or a local queue spilled; distinct = (config, spill count class, overlap class, flush/drain kind)",
+     technique="offline conservation checker over recorded unique-id push/pop histories of real threads (in = out + held), with failpoints widening BlockQueue::pop/replace windows",
+     level_text="Real-thread stress of BlockPool with unique block ids; at every quiescent barrier: popped ids were held, no id popped twice, len == pushed - popped, iterate_blocks == held set, "
+                "drain after flush_all == held set. Explores the interleavings the OS scheduler and the failpoints produce.",
+     note="Only the protocol BlockPageResource uses is exercised (flush with no push in flight). Interleaving coverage is whatever 8 threads on 16 cores produce; not exhaustive.",
+     design_ref="2/C19", miri=True, parallel=2,
+     floors={"quick": {"rounds": 9000, "rounds_pop_overlapped_push": 3000, "rounds_with_spill": 4000, "local_queue_spills": 30000,
+                       "pop_of_block_pushed_in_same_round": 2000000, "drains": 500, "flush_all": 1200}})
+
+unit("C20", "Side metadata behaves as an array of independent fixed-width integers",
+     rule="42 specs (1..64 bits x region 2^{3,4,8,12,15,22}) each with a window of 256-512 fields straddling a metadata page boundary, pre-filled with a random pattern; "
+          "1.5M-op random histories per spec (thorough 40M) of load/store/atomic/set_zero/compare_exchange ok+fail/fetch_add/sub/and/or/fetch_update accept+reject, 25% of data addresses not region aligned, "
+          "fields biased to neighbours sharing a byte/word; distinct = (op, width, region, shift-in-byte, neighbour relation, outcome)",
+     technique="reference-model monitor: Vec<u64> field model vs real SideMetadataSpec accessors; whole raw metadata window (with margins) compared byte-by-byte after every op",
+     level_text="Every return value and the full metadata window are compared with a field-array model after every operation of long random histories on randomly pre-filled metadata; "
+                "all widths and several region sizes enumerated.",
+     note="Values always fit the field width and T matches the width as the API requires. Memory orderings are not part of the property: Release-ordering panics on sub-byte specs are recorded as notes only.",
+     design_ref="2/C20",
+     floors={"quick": {"configs": 42, "evaluations": 50000000, "selftest_mutants_caught": 6}})
+
+unit("C21", "Bulk side-metadata zero/set/copy touch exactly the covered regions",
+     rule="42 specs x {bzero, bset, bcopy between equal-shape specs}: windows centred on a metadata chunk/page boundary, randomly refilled before every call; all (start,end) pairs within +-140 fields "
+          "of the centre (thorough +-400) + random pairs + long ranges with both ends near page/word/byte boundaries; region-aligned start/size (API contract); distinct = (op, width, start bit, end bit, crossing class)",
+     technique="reference-model monitor: per-field loop model vs real bulk operations; full destination window compared, source window unchanged",
+     level_text="Exhaustive small-window enumeration of ranges around metadata byte/word/page/chunk boundaries for every width, compared with a per-field model on random pre-filled metadata.",
+     note="Only region-aligned start/size are used (the documented contract).",
+     design_ref="2/C21",
+     floors={"quick": {"evaluations": 2500000, "partial_start_byte": 1000000, "partial_end_byte": 1000000, "within_one_byte": 30000,
+                       "crosses_word": 2000000, "crosses_page_or_chunk_centre": 1000000, "selftest_mutants_caught": 17}})
+
+unit("C22", "Side-metadata search and scan agree with a naive scan",
+     rule="42 specs x 10 bitmap patterns (zero, single, sparse, dense, all-but-one, word-boundary pairs, runs, high-bit-only) over windows of up to 4096 fields starting mid-word; find_prev/find_next "
+          "with range ends exactly on / one byte past / one byte before region starts, small/random/maximal/limit=1 ranges, 1/3 unaligned data addresses; scan_non_zero_values aligned and unaligned; "
+          "an edge child process with the window against unmapped data/metadata; distinct = (function, width, region, result locality class, range-end class, alignment)",
+     technique="reference-model monitor: own region-by-region loop over load_atomic vs the real search/scan functions, in a release build (mmtk's internal debug cross-check is not what decides)",
+     level_text="Differential test of the fast search/scan paths against a naive per-region scan for all widths, many bitmap shapes and range placements incl. unmapped edges.",
+     note="The data window is made Address::is_mapped() through a carrier spec; edge cases skipped for specs whose metadata chunk covers >= 2^42 data bytes.",
+     design_ref="2/C22",
+     floors={"quick": {"find_prev_queries": 120000, "find_next_queries": 120000, "scan_queries": 30000, "result_same_metadata_word": 8000,
+                       "result_other_word": 40000, "unaligned_data_addr": 80000, "edge_configs": 30, "selftest_mutants_caught": 21}})
+
+unit("C25", "Side-metadata sanity checking rejects exactly the overlapping spec sets",
+     rule="all ordered pairs of 139 spec shapes (1..64 bits x region 2^3..2^22, range <= 2^46) x 8 placement relations (same offset, directly after, after-8, far after, directly before, before+8, inside, after+8) "
+          "x 3 base slots x {global, local} through the non-panicking core of the sanity check, random triples, and a sample of every (kind, relation) class through the real panicking verify_metadata_context in child processes; "
+          "only sets that pass the other sanity checks, so panic <=> overlap; distinct = (kind, relation, shape class, path)",
+     technique="reference-model monitor: own interval-overlap predicate over [start, start+range) vs SideMetadataSanity (real panic path in forked children + in-process hook)",
+     level_text="Exhaustive over a generated family of spec pairs for both the global and local rules; the real panic path is exercised for every class.",
+     note="Specs are synthetic (not mapped); other sanity conditions (size limits, is_global flags) are kept satisfied so they cannot explain a panic.",
+     design_ref="2/C25", exhaustive=True,
+     floors={"quick": {"evaluations": 800000, "sets_via_hook": 800000, "sets_via_real_panic_path": 300, "sets_overlapping_via_real_panic_path": 100}})
+
+unit("C26", "Free lists allocate disjoint runs and coalesce back completely",
+     rule="10000 histories (thorough 250000) of alloc/alloc_from_unit/free/size/set+clear_uncoalescable over IntArrayFreeList (single, parent+children with 1..8 heads, Map32's resize protocol) and "
+          "RawMemoryFreeList (generic growth, Map64 protocol), units 1..4096, all grains; free-structure walk compared mid-history and after freeing everything; distinct = (scenario, units class, heads, grain class, marks, history outcome)",
+     technique="reference-model monitor: run-partition model vs real free lists, comparing every return value and the walked free structure",
+     level_text="Long random histories consistent with the callers' protocols against a partition model: disjointness, size(), alloc fails iff no fitting run, full coalescing back to the initial runs.",
+     note="Histories obey the legality rules of the callers (free only run heads, no cross-head coalescing without an uncoalescable boundary). RawMemoryFreeList block sizes restricted to divisors of the table size (the non-divisor case is C27).",
+     design_ref="2/C26", miri=True,
+     floors={"quick": {"evaluations": 3500000, "op_alloc": 1000000, "op_free": 800000, "op_alloc_from_unit": 500000, "free_coalesced": 400000,
+                       "free_blocked_by_uncoalescable": 100000, "free_structure_checks": 40000, "restore_initial_checks": 2000, "histories_freed_everything": 10000}})
+
+unit("C27", "A raw-memory free list can grow to its configured maximum",
+     rule="~350 cases (thorough ~3100), each in a child process: unit counts whose table size is / is not a multiple of the block size x pages_per_block {default,1,2,16} x heads {1,2,7} x grain {units,2,64,1024} x "
+          "growth in one shot / fine / random steps; distinct = (table-multiple-of-block?, ppb, heads, grain, step kind, multi-block?)",
+     technique="fault-isolating monitor: each growth history runs in a subprocess; oracle on grow results, /proc/self/maps beyond the limit, and exactly-once allocation of every unit",
+     level_text="Every grow_freelist up to the maximum must succeed without panic, nothing may be mapped at/after the limit, every unit must be allocatable exactly once, growing beyond the maximum must fail.",
+     note="Set-up mirrors Map64 (chunk-aligned base in a quarantined arena).",
+     design_ref="2/C27", parallel=2,
+     floors={"quick": {"cases": 300, "cases_table_not_multiple_of_block": 100, "cases_table_multiple_of_block": 150, "cases_multi_block": 150}})
+
+unit("C35", "Mark-sweep size classes fit every request",
+     rule="exhaustive: 4 VM alignment configurations (MIN/MAX alignment 4/64, 4/8, 8/8, 8/16) x every size 0..=MI_LARGE_OBJ_SIZE_MAX (multiples of MIN_ALIGNMENT) x every power-of-two align in MIN..=MAX; "
+          "bin in 1..=MAX_BIN, bin_size >= aligned request, monotone in size and align, table strictly increasing; real get_maximum_aligned_size cross-checked against the worst gap align_allocation_no_fill inserts; distinct = (vm, align, bin)",
+     technique="exhaustive enumeration against the arithmetic definition (finite domain)",
+     level_text="The whole finite request domain is enumerated for four alignment configurations.",
+     note="The fresh-block free-list half of the property (cells disjoint, strided, inside the block) is observed in live MarkSweep gcsim runs (C02/C03 overlap and bounds checks), not here.",
+     design_ref="2/C35", exhaustive=True,
+     floors={"quick": {"evaluations": 139000, "requests_core": 139000}})
+
+unit("C36", "The large-object treadmill accounts for every object exactly once",
+     rule="4000 histories (thorough 40000) following the LargeObjectSpace protocol: add (nursery / allocate-as-live), flip(full?), copy of each marked object exactly once, collect_nursery (+collect_mature when full), "
+          "ending with a full GC that marks nothing; every 25th history issues copies/adds from 2-4 threads; distinct = (GC kind, set-size classes, marked fraction class, address reuse?)",
+     technique="reference-model monitor: four id-set model vs the real TreadMill; every sweep result compared as a set, emptiness predicates compared at six points per cycle, conservation over the history",
+     level_text="Histories consistent with the LOS protocol against a four-set model: each sweep returns exactly the unmarked objects of the collected sets once; marked objects are never swept; added == swept overall.",
+     note="Object references are synthetic addresses (the treadmill only hashes them).",
+     design_ref="2/C36", miri=True,
+     floors={"quick": {"evaluations": 40000, "gc_full": 15000, "gc_nursery": 20000, "copy_mature": 300000, "copy_nursery": 200000, "cycles_with_address_reuse": 10000, "histories_concurrent": 100}})
